@@ -2,8 +2,10 @@ package checks
 
 import (
 	"fmt"
+	"strings"
 	"time"
 
+	"pmc/internal/comp"
 	"pmc/internal/harness"
 	"pmc/internal/machine"
 	"pmc/internal/model"
@@ -144,17 +146,18 @@ func c03Sig(v *machine.Violation, n, defPos int, bodies []int) string {
 }
 
 type c03Case struct {
-	N        int                 `json:"entries"`
-	DefPos   int                 `json:"default_position"`
-	Bodies   []int               `json:"bodies"`
-	Ctx      int                 `json:"context"`
-	Source   string              `json:"source"`
-	Optimize bool                `json:"optimize"`
-	Expected string              `json:"reference_next_event"`
-	Actual   string              `json:"emitted_next_event"`
-	Env      string              `json:"environment_in_failing_phase"`
-	Trace    []machine.TraceStep `json:"observable_prefix"`
-	Output   string              `json:"emitted_assembly"`
+	N           int                 `json:"entries"`
+	DefPos      int                 `json:"default_position"`
+	Bodies      []int               `json:"bodies"`
+	Ctx         int                 `json:"context"`
+	Source      string              `json:"source"`
+	Optimize    bool                `json:"optimize"`
+	LineMarkers bool                `json:"line_markers,omitempty"`
+	Expected    string              `json:"reference_next_event"`
+	Actual      string              `json:"emitted_next_event"`
+	Env         string              `json:"environment_in_failing_phase"`
+	Trace       []machine.TraceStep `json:"observable_prefix"`
+	Output      string              `json:"emitted_assembly"`
 }
 
 func init() { register(&Check{ID: "C03", Run: runC03}) }
@@ -224,6 +227,33 @@ func runC03(tier string) int {
 				} else if r.WantSample() && n >= 3 && ctx == 2 {
 					r.Sample(map[string]interface{}{"source": src, "optimize": opt, "product_states": st.States, "product_transitions": st.Transitions})
 				}
+				// the same program written on one source line and compiled with line markers: same behaviour required
+				if v == nil {
+					one := oneLine(src)
+					lm := &comp.Opts{LineMarkers: true, Path: "m.pory"}
+					res := comp.Compile(one, comp.Opts{Optimize: opt, LineMarkers: true, Path: "m.pory"})
+					if res.Err == nil && res.Panic == "" && dropMarkerLines(res.Out) == out {
+						r.Add("one_line_with_markers_identical", 1)
+					} else {
+						r.Add("one_line_with_markers_explored", 1)
+						ok2, rej2, st2, v2, out2 := checkScripts(scripts, one, opt, machine.Lazy, lm)
+						if !ok2 {
+							r.Report(harness.Violation{Sig: "C03:rejected-one-line:" + firstWords(rej2, 6), Summary: fmt.Sprintf("switch rejected when written on one line with line markers: %s\n  source: %q", rej2, one), Replay: map[string]interface{}{"source": one, "error": rej2, "line_markers": true}})
+						} else if v2 != nil {
+							addStats(r, st2)
+							cc := c03Case{N: n, DefPos: defPos, Bodies: bodies, Ctx: ctx, Source: one, Optimize: opt, LineMarkers: true, Expected: v2.A.String(), Actual: v2.B.String(), Env: v2.Sigma, Trace: v2.Trace, Output: out2}
+							r.Report(harness.Violation{
+								Sig:     c03Sig(v2, n, defPos, bodies) + "+linemarkers",
+								Summary: fmt.Sprintf("entries=%d default@%d bodies=%v ctx=%d optimize=%v, one-line source with line markers: %s\n  source: %q", n, defPos, bodies, ctx, opt, v2, one),
+								Replay:  cc,
+								Recheck: func() bool {
+									_, _, _, v3, _ := checkScripts(scripts, one, opt, machine.Lazy, lm)
+									return v3 != nil
+								},
+							})
+						}
+					}
+				}
 			}
 		})
 		if done {
@@ -239,5 +269,39 @@ func runC03(tier string) int {
 	r.Assume("reference switch rule: a body-less entry shares the next entry that has a body; trailing body-less entries go to the statement after the switch; default runs iff no case value matches; bodies never fall through; break leaves the switch",
 		"var domain = every case value, its neighbours and 0 (always contains a non-matching value)")
 	return r.Finish(r.Get("evaluations"), r.Get("nontrivial"),
-		"every case list of length n (default at any position or absent) x every assignment of bodies from a 10-body alphabet (empty, cmd, cmd+break, break+dead tail, if-break, while-with-break, nested switch, labelled body with goto into it, cmd+end, if-continue in loops; reduced alphabet at n>=5) x 8 contexts (alone, first/middle/last, in while, in do-while, in another switch, in infinite while, with case values written as constant expressions) x optimize on/off; non-trivial = >= 2 entries and >= 3 distinct observable events")
+		"every case list of length n (default at any position or absent) x every assignment of bodies from a 10-body alphabet (empty, cmd, cmd+break, break+dead tail, if-break, while-with-break, nested switch, labelled body with goto into it, cmd+end, if-continue in loops; reduced alphabet at n>=5) x 8 contexts (alone, first/middle/last, in while, in do-while, in another switch, in infinite while, with case values written as constant expressions) x optimize on/off, each also written on a single source line and compiled with line markers (explored again whenever the marker-stripped output differs); non-trivial = >= 2 entries and >= 3 distinct observable events")
+}
+
+// oneLine rewrites a generated source so that every statement sits on one line
+// (const definitions keep their own lines: a const value ends at the newline).
+func oneLine(src string) string {
+	lines := strings.Split(src, "\n")
+	var head, body []string
+	for _, l := range lines {
+		t := strings.TrimSpace(l)
+		if t == "" {
+			continue
+		}
+		if len(body) == 0 && strings.HasPrefix(t, "const ") {
+			head = append(head, t)
+		} else {
+			body = append(body, t)
+		}
+	}
+	out := strings.Join(head, "\n")
+	if out != "" {
+		out += "\n"
+	}
+	return out + strings.Join(body, " ") + "\n"
+}
+
+func dropMarkerLines(out string) string {
+	var sb strings.Builder
+	for _, l := range strings.SplitAfter(out, "\n") {
+		if strings.HasPrefix(l, "# ") {
+			continue
+		}
+		sb.WriteString(l)
+	}
+	return sb.String()
 }
